@@ -16,13 +16,29 @@ Theorem C51_jwt_iff_valid : forall auth mal alg c now keys,
 Proof. exact jwt_iff_valid. Qed.
 Print Assumptions C51_jwt_iff_valid.
 
-(* "signed with a configured key using that key's algorithm": after the repair of provideKey (/repo commit dccedcf;
-   before it an HS256 token was accepted under an oct key declared HS512) the module's decision coincides, for all
-   inputs, with the statement's validity predicate jwt_valid of run/RunC51.v. *)
-Theorem C51_jwt_alg_is_keys_alg : forall auth mal alg c now keys,
+(* "signed with a configured key using that key's algorithm and within its time claims".
+   The algorithm part holds after the repair of provideKey (/repo commit dccedcf; before it an HS256 token was
+   accepted under an oct key declared HS512).  The time part is refuted for claims that are the number 0 or not
+   numbers: jwt-go ignores them, so e.g. a signed token with "exp":0 is accepted at any time (known finding 2). *)
+Theorem C51_jwt_valid_refuted :
+  exists auth alg c now keys,
+    jwt_accept auth false alg c now keys = true /\ jwt_valid auth false alg c now keys = false.
+Proof. exact jwt_time_refuted. Qed.
+Print Assumptions C51_jwt_valid_refuted.
+
+(* For every token whose time claims are absent or non-zero numbers (claims_strict) the module's decision
+   coincides with the statement's validity predicate jwt_valid of run/RunC51.v, for all headers, algorithms,
+   clocks and key sets (including keys with and without a declared algorithm). *)
+Theorem C51_jwt_valid_partial : forall auth mal alg c now keys, claims_strict c = true ->
   jwt_valid auth mal alg c now keys = jwt_accept auth mal alg c now keys.
 Proof. exact jwt_accept_is_valid. Qed.
-Print Assumptions C51_jwt_alg_is_keys_alg.
+Print Assumptions C51_jwt_valid_partial.
+
+(* In every case a valid request is forwarded (the defect only ever admits too much). *)
+Theorem C51_jwt_valid_accepted : forall auth mal alg c now keys,
+  jwt_valid auth mal alg c now keys = true -> jwt_accept auth mal alg c now keys = true.
+Proof. exact jwt_valid_accepted. Qed.
+Print Assumptions C51_jwt_valid_accepted.
 
 (* Secure link: for all query values, digests and clocks, Checker.Check succeeds iff (no expiry key is configured
    or the expires value is a decimal int64 not before now) and the checksum value is non-empty and equals the
@@ -51,10 +67,12 @@ Proof. exact block_refuses. Qed.
 Print Assumptions C51_block_refuses.
 
 (* The executable property predicate evaluated on the implementation holds of the model on every well-shaped
-   input of each of the four operations (basic: user names unique, as in a Go map). *)
+   input of each of the four operations (JWT: outside the known-finding class kf_C51 = 2; basic: user names
+   unique, as in a Go map). *)
 Theorem C51_prop_of_model_jwt : forall auth mal alg cl now ks extra c keys,
   dec_claims cl = Some c -> dec_keys ks = Some keys ->
-  let i := VL [VZ 2; VB auth; VZ mal; VZ alg; cl; VZ now; ks; extra] in prop_C51 i (run_C51 i) = true.
+  let i := VL [VZ 2; VB auth; VZ mal; VZ alg; cl; VZ now; ks; extra] in
+  kf_C51 i = 0 -> prop_C51 i (run_C51 i) = true.
 Proof. exact prop_of_model_jwt. Qed.
 Print Assumptions C51_prop_of_model_jwt.
 Theorem C51_prop_of_model_link : forall he expires checksum digest now e1 e2 e3,
@@ -75,7 +93,7 @@ Print Assumptions C51_prop_of_model_block.
 (* Non-vacuity: an expired token is rejected although its signature verifies; a link whose checksum is a
    proper prefix of the right one is rejected (code 4). *)
 Example C51_example :
-  jwt_accept (BEARER ++ [32; 120]) false 1 {| c_exp := Some 99; c_iat := None; c_nbf := None |} 100
+  jwt_accept (BEARER ++ [32; 120]) false 1 {| c_exp := CNum 99; c_iat := CAbsent; c_nbf := CAbsent |} 100
              [{| k_kty := 0; k_alg := 1; k_sig_ok := true |}] = false /\
   secure_link false [] (firstn 21 (b64url (repeat 7 16))) (repeat 7 16) 0 = 4 /\
   secure_link false [] (b64url (repeat 7 16)) (repeat 7 16) 0 = 0.
